@@ -226,11 +226,12 @@ def cobsde_trace(ctx):
 
 def crcde_trace(ctx):
     cargo_build(ctx, "h_core")
-    # the bit-serial CRC model costs ~1 ms per corrupted case: thorough = 4x the frames, plus two shards with the
-    # exhaustive burst enumeration up to 12 bits on a few frames
+    # the bit-serial CRC model costs a few ms per corrupted case: thorough = 4x the frames, plus six shards with the
+    # exhaustive enumeration of every burst pattern up to 10 bits at every offset of four short frames each
     n = ctx.pick(7, 28)
-    cmds = [([hbin("h_core"), "crc-de", "--n", str(n if not (ctx.tier == "thorough" and i < 2) else 4), "--seed", str(ctx.seed * 100 + i)]
-             + (["--deep", "1"] if ctx.tier == "thorough" and i < 2 else []), f"crcde-{i}.ndjson")
+    ndeep = 6 if ctx.tier == "thorough" else 0
+    cmds = [([hbin("h_core"), "crc-de", "--n", str(n if i >= ndeep else 4), "--seed", str(ctx.seed * 100 + i)]
+             + (["--deep", "1"] if i < ndeep else []), f"crcde-{i}.ndjson")
             for i in range(NSH)]
     req = [f"crc{w}:{k}" for w in (1, 2, 4, 8, 16) for k in ("intact:ok", "bit:BadCrc", "trunc:End", "burst:", "cksum:BadCrc")]
     return trace_stage(ctx, "crc-de", cmds, "Trace_Frame", require=req)
